@@ -8,7 +8,7 @@ const char * prop_rule() {
            "length that reaches 1..5 summary levels, gap-free sample patterns (random, ramp, constant, alternating, extremes, large offset), "
            "written in generated partitions; then ~40 statistics requests (start, increment, count) with increments around "
            "sdf*sumdf^k*{1, 1+-eps, 2.5} and counts {1,2,24,25,26,100}, starts aligned/unaligned to entries, blocks and summary chunks, "
-           "windows ending at the last sample; oracle = exact long-double statistics of the model windows with stated tolerances; "
+           "windows ending at the last sample; one case in six leaves the writer unclosed so that the reader repairs the file and serves rebuilt summaries; oracle = exact long-double statistics of the model windows with stated tolerances; "
            "non-trivial = request served from level >= 1 or unaligned at either edge; distinct = case hash";
 }
 
@@ -58,6 +58,9 @@ std::string prop_generate(Tape & t, int size) {
         r.set("sd", (long long) t.pick(std::vector<int64_t>{0, 0, 1, -1, 3, -3}));
         reqs.push(r);
     }
+    // one case in six leaves the writer unclosed: the reader repairs the file on open and rebuilds the upper summary levels itself
+    // (jls_core_repair_fsr); the statistics it then serves must describe the written samples of the recovered prefix just the same
+    if (t.chance(1, 6)) p.close = false;
     mj::Value c = mj::Value::object();
     c.set("program", program_to_json(p));
     c.set("reqs", reqs);
@@ -80,10 +83,19 @@ CaseOutcome prop_execute(const std::string & case_json) {
     if (!summarisable(dt)) { vfs::reset(); return oc; }
     Reader rd;
     int32_t rc = rd.open(path);
-    if (rc) { oc.fail("open", strf("open %d", rc)); vfs::reset(); return oc; }
+    if (rc) { if (!p.close) { oc.tags.push_back("unclosed_open_refused"); vfs::reset(); return oc; }   // C03 decides when an unclosed file must open
+              oc.fail("open", strf("open %d", rc)); vfs::reset(); return oc; }
     struct jls_signal_def_s sd = {};
-    jls_rd_signal(rd.rd, (uint16_t) sig, &sd);
-    int64_t len = s.length(), sdf = sd.sample_decimate_factor, sumdf = sd.summary_decimate_factor, spd = sd.samples_per_data, l1 = (int64_t) sd.entries_per_summary * sdf;
+    if (jls_rd_signal(rd.rd, (uint16_t) sig, &sd)) { if (!p.close) { vfs::reset(); return oc; } oc.fail("open", "the signal is missing from the closed file"); vfs::reset(); return oc; }
+    int64_t len = s.length();
+    if (!p.close) {
+        // repaired file: the recovered signal is a prefix of what was written (C03); requests are placed inside the recovered length
+        int64_t rl = 0;
+        if (jls_rd_fsr_length(rd.rd, (uint16_t) sig, &rl) || rl > len) { oc.fail("repaired_length", strf("repaired file reports length %lld, %lld samples were written", (long long) rl, (long long) len)); vfs::reset(); return oc; }
+        len = rl;
+        oc.tags.push_back("repaired_file");
+    }
+    int64_t sdf = sd.sample_decimate_factor, sumdf = sd.summary_decimate_factor, spd = sd.samples_per_data, l1 = (int64_t) sd.entries_per_summary * sdf;
     oc.tags.push_back(std::string("dtype:") + dt.name);
     { int lv = 0; int64_t span = sdf; while (len >= span && lv < 8) { ++lv; span = (lv == 1) ? l1 : span * sumdf; } oc.tags.push_back(strf("levels_on_disk:%d", lv)); }
     bool any_nt = false;
@@ -123,6 +135,7 @@ CaseOutcome prop_execute(const std::string & case_json) {
             break;
         }
         oc.tags.push_back(strf("served_level:%d", level));
+        if (!p.close) oc.tags.push_back(strf("repaired_file_served_level:%d", level));
         bool unaligned = (start % sdf) || ((start + span) % sdf);
         if (level >= 1 || unaligned) any_nt = true;
         bool f64s = summary_is_f64(dt);
